@@ -184,7 +184,12 @@ func (dm *DMap) syncPutOnCluster(e *env, nt storage.Entry) error {
 		cmd := protocol.NewPutEntry(dm.name, e.key, encodedEntry).Command(dm.s.ctx)
 		err := rc.Process(dm.s.ctx, cmd)
 		if err != nil {
-			return protocol.ConvertError(err)
+			// The replica could not be created on this backup owner. Don't fail
+			// early: the write quorum decides whether the request succeeds.
+			if dm.s.log.V(3).Ok() {
+				dm.s.log.V(3).Printf("[ERROR] Failed to call put command on %s for DMap: %s: %v", owner, e.dmap, protocol.ConvertError(err))
+			}
+			continue
 		}
 		err = protocol.ConvertError(cmd.Err())
 		if err != nil {
